@@ -345,6 +345,9 @@ func checkCase(c Case) evid.Outcome {
 		for _, s := range d.Segs {
 			_, binds, _ := s.Classify()
 			for _, b := range binds {
+				if b == "route" {
+					continue // the reserved name: the handler sees the route text instead
+				}
 				tv, tok := vals[b]
 				fv, fok := hit.Params[b]
 				if tok != fok || tv != fv {
@@ -371,6 +374,25 @@ func TestProp(t *testing.T) {
 	evid.Rapid(t, "params", 4000, 60000, func(t *rapid.T) {
 		pool := gen.SegPoolW(t, 6, false, [3]int{15, 35, 85})
 		regs, _ := gen.RouteSet(t, gen.SetOpts{MaxRoutes: 6, Route: gen.RouteOpts{SegmentPool: pool}})
+		if rapid.IntRange(0, 5).Draw(t, "reservedname") == 0 {
+			// a route whose bind is literally named "route": the router accepts
+			// it; whether it is matched or tried and abandoned, handlers must
+			// still see route = canonical text of the route that served
+			extra := rt.Reg{M: "GET", R: []string{"/{route}/zzedit", "/{route}", "/zz/{route: **}"}[rapid.IntRange(0, 2).Draw(t, "rn")]}
+			g := model.NewRegistrar()
+			ok := true
+			for _, r := range regs {
+				for _, m := range model.ExpandMethod(r.M) {
+					g.Add(m, rt.Deriv(r.R))
+				}
+			}
+			if v, _ := g.Check("GET", rt.Deriv(extra.R)); v == model.MustReject {
+				ok = false
+			}
+			if ok {
+				regs = append([]rt.Reg{extra}, regs...)
+			}
+		}
 		c := Case{Regs: regs, Reqs: gen.Requests(t, regs, 12)}
 		evid.Run(t, "params", c, func() evid.Outcome { return checkCase(c) })
 	})
